@@ -73,3 +73,43 @@ func verif_cmp3(lt, eq bool) int {
 	}
 	return 1
 }
+
+// verif_year decodes the one-byte YEAR encoding: 255 is year 0000, otherwise 1901 + b.
+func verif_year(b byte) int16 {
+	if b == 255 {
+		return 0
+	}
+	return int16(b) + 1901
+}
+
+// ---- abstract view of the tuple layout: values | offsets 1..n-1 | count (see the comment on Tuple)
+
+func verif_tup_count(tup Tuple) int { return int(verif_le16(tup[len(tup)-2:])) }
+
+func verif_tup_split(tup Tuple) int { return len(tup) - 2*verif_tup_count(tup) }
+
+// verif_tup_start is the byte offset at which field |i| starts (0 <= i < count).
+func verif_tup_start(tup Tuple, i int) uint16 {
+	if i == 0 {
+		return 0
+	}
+	p := verif_tup_split(tup) + (i-1)*2
+	return verif_le16(tup[p : p+2])
+}
+
+// verif_tup_stop is the byte offset at which field |i| ends (0 <= i < count).
+func verif_tup_stop(tup Tuple, i int) uint16 {
+	if i < verif_tup_count(tup)-1 {
+		p := verif_tup_split(tup) + i*2
+		return verif_le16(tup[p : p+2])
+	}
+	return uint16(verif_tup_split(tup))
+}
+
+// verif_wf_tuple: the count and offsets describe fields that lie inside the value area.
+func verif_wf_tuple(tup Tuple) bool {
+	return len(tup) >= 2 && len(tup) <= 65535 && 2*verif_tup_count(tup) <= len(tup) &&
+		verif_forall(0, verif_tup_count(tup), func(i int) bool {
+			return verif_tup_start(tup, i) <= verif_tup_stop(tup, i) && int(verif_tup_stop(tup, i)) <= verif_tup_split(tup)
+		})
+}
